@@ -36,6 +36,59 @@ def classify(prop, codemod, before, after1, after2):
                         return "kf_lazy_logging_quote"
         except Exception:
             pass
+    if prop == "C01" and name == "use-walrus-if":
+        import ast
+        try:
+            for n in ast.walk(ast.parse(before)):
+                if isinstance(n, ast.Assign) and isinstance(n.value, ast.Tuple):
+                    seg = ast.get_source_segment(before, n.value) or ""
+                    if not seg.startswith("("):
+                        return "kf_walrus_tuple_rhs"
+        except SyntaxError:
+            pass
+    if prop == "C01" and name == "sql-parameterization":
+        import ast
+        try:
+            for n in ast.walk(ast.parse(before)):
+                if isinstance(n, ast.BinOp) and isinstance(n.op, ast.Add):
+                    for side, other in ((n.right, n.left), (n.left, n.right)):
+                        if isinstance(side, ast.Constant) and side.value == "" and other.end_lineno != other.lineno:
+                            return "kf_sql_cleanup_multiline_concat"
+        except SyntaxError:
+            pass
+    if prop == "C07" and name == "flask-enable-csrf-protection":
+        import ast
+        try:
+            tree = ast.parse(before)
+            for n in ast.walk(tree):
+                if isinstance(n, ast.Assign) and len(n.targets) >= 2 and isinstance(n.value, ast.Call) and "Flask" in ast.dump(n.value.func):
+                    return "kf_flask_csrf_chained_targets"
+            for n in ast.walk(tree):
+                if isinstance(n, ast.ImportFrom) and (n.module or "").startswith("flask_wtf") and any(a.name == "CSRFProtect" for a in n.names):
+                    return "kf_flask_csrf_preexisting_import"
+        except SyntaxError:
+            pass
+    if prop == "C07" and name == "django-receiver-on-top":
+        import ast
+        try:
+            for n in ast.walk(ast.parse(before)):
+                if isinstance(n, (ast.FunctionDef, ast.AsyncFunctionDef)):
+                    recv = [d for d in n.decorator_list if "receiver" in ast.dump(d.func if isinstance(d, ast.Call) else d)]
+                    if len(recv) >= 2:
+                        return "kf_django_receiver_two_receivers"
+        except SyntaxError:
+            pass
+    if prop == "C07" and name == "flask-json-response-type":
+        import ast
+        try:
+            k = 0
+            for n in ast.walk(ast.parse(before)):
+                if isinstance(n, ast.Return) and isinstance(n.value, ast.Call) and ast.dump(n.value.func).count("dumps"):
+                    k += 1
+            if k >= 2:
+                return "kf_flask_json_several_routes"
+        except SyntaxError:
+            pass
     if prop == "C07" and after1 is not None:
         import ast
         try:
